@@ -32,7 +32,7 @@ func (r *Rand) Intn(n int) int {
 	}
 	return int(r.U64() % uint64(n))
 }
-func (r *Rand) Bool() bool       { return r.U64()&1 == 1 }
+func (r *Rand) Bool() bool        { return r.U64()&1 == 1 }
 func (r *Rand) Chance(p int) bool { return r.Intn(100) < p }
 func (r *Rand) Bytes(n int) []byte {
 	b := make([]byte, n)
@@ -41,9 +41,9 @@ func (r *Rand) Bytes(n int) []byte {
 	}
 	return b
 }
-func (r *Rand) Pick(xs []int) int           { return xs[r.Intn(len(xs))] }
-func (r *Rand) PickU64(xs []uint64) uint64  { return xs[r.Intn(len(xs))] }
-func (r *Rand) Fork() *Rand                 { return NewRand(r.U64()) }
+func (r *Rand) Pick(xs []int) int          { return xs[r.Intn(len(xs))] }
+func (r *Rand) PickU64(xs []uint64) uint64 { return xs[r.Intn(len(xs))] }
+func (r *Rand) Fork() *Rand                { return NewRand(r.U64()) }
 
 // ---------- Coq literals ----------
 
@@ -130,38 +130,39 @@ func CoqOptBytes(b []byte, isNil bool) string {
 // ---------- run context ----------
 
 type Ctx struct {
-	Prop   string
-	Mode   string // gen | search | replay
-	Tier   string
-	Seed   uint64
-	Out    string
-	In     string
-	header string
-	shard  []string
-	nshard int
-	PerShard int
+	Prop       string
+	Mode       string // gen | search | replay
+	Tier       string
+	Seed       uint64
+	Out        string
+	In         string
+	header     string
+	shard      []string
+	nshard     int
+	PerShard   int
 	ShardBytes int
 	shardBytes int
-	Cases  int
-	jsonl  *os.File
-	Stats  Stats
-	seen   map[string]bool
+	Cases      int
+	jsonl      *os.File
+	inflight   *os.File
+	Stats      Stats
+	seen       map[string]bool
 }
 
 type Violation struct {
-	Site  string      `json:"site"`  // call site + class, stable key for known findings
+	Site  string      `json:"site"` // call site + class, stable key for known findings
 	What  string      `json:"what"`
 	Input interface{} `json:"input"`
 }
 
 type Stats struct {
-	Evaluations        int            `json:"evaluations"`
-	DistinctNontrivial int            `json:"distinct_nontrivial"`
-	Rule               string         `json:"rule"`
-	Samples            []interface{}  `json:"samples"`
-	Distribution       map[string]int `json:"distribution"`
-	Violations         []Violation    `json:"violations"`
-	Shards             int            `json:"shards"`
+	Evaluations        int                    `json:"evaluations"`
+	DistinctNontrivial int                    `json:"distinct_nontrivial"`
+	Rule               string                 `json:"rule"`
+	Samples            []interface{}          `json:"samples"`
+	Distribution       map[string]int         `json:"distribution"`
+	Violations         []Violation            `json:"violations"`
+	Shards             int                    `json:"shards"`
 	Extra              map[string]interface{} `json:"extra,omitempty"`
 }
 
@@ -181,6 +182,7 @@ func Parse(prop string) *Ctx {
 	c.seen = map[string]bool{}
 	if c.Out != "" {
 		os.MkdirAll(c.Out, 0o755)
+		os.Remove(filepath.Join(c.Out, "inflight.json"))
 		old, _ := filepath.Glob(filepath.Join(c.Out, "cases_*.v"))
 		for _, f := range old {
 			os.Remove(f)
@@ -238,6 +240,25 @@ func (c *Ctx) Weigh(w int) {
 	c.shardBytes += w
 }
 
+// InFlight records, before the library is called, what is about to be run: when the library ends the process
+// itself (log.Fatal, os.Exit, a runtime fatal error, the kernel's OOM killer), the driver finds here the input that
+// was being handled and reports it as the failing input.
+func (c *Ctx) InFlight(site string, input interface{}) {
+	if c.Out == "" {
+		return
+	}
+	if c.inflight == nil {
+		f, err := os.Create(filepath.Join(c.Out, "inflight.json"))
+		if err != nil {
+			return
+		}
+		c.inflight = f
+	}
+	bb, _ := json.Marshal(map[string]interface{}{"site": site, "input": input})
+	c.inflight.Truncate(0)
+	c.inflight.WriteAt(bb, 0)
+}
+
 func (c *Ctx) Violate(site, what string, input interface{}) {
 	c.Stats.Violations = append(c.Stats.Violations, Violation{Site: site, What: what, Input: input})
 }
@@ -263,6 +284,10 @@ func (c *Ctx) flush() {
 
 func (c *Ctx) Finish() {
 	c.flush()
+	if c.inflight != nil {
+		c.inflight.Close()
+		os.Remove(filepath.Join(c.Out, "inflight.json"))
+	}
 	c.Stats.Shards = c.nshard
 	if c.jsonl != nil {
 		c.jsonl.Close()
